@@ -42,6 +42,7 @@ Where shared and own index DIFFER, and why it does not matter:
 import BV.Props.C06
 import BV.Props.C19
 import BV.Lemmas.MultiFavorKinds
+import BV.Lemmas.MultiFavorNoPanic
 
 namespace BV.Props.C06Hasher
 open BV.Multi BV.Hasher BV.Lemmas.Multi
@@ -270,5 +271,51 @@ theorem shared_index_is_partition (P : BasicP) (hP : P.Ok) (len : Nat) (input : 
   have hsr : Basic.storeRange P (toBA input) (2 ^ 64 - 1) = Basic.bulkStoreRange P (toBA input) (2 ^ 64 - 1) := rfl
   rw [hsr] at hpart
   rw [hpart, hs.2, Nat.sub_zero]
+
+/-! ## 6. the favor branch itself cannot panic -/
+
+/-- `favor_branch_never_panics`.  The shared index is built on the CALLING thread (before the last
+job runs): a panic there would be a panic of `CompressMulti` that no job caused — the model
+`BV.Multi.compressMulti` has no site for it.  Justification: for every kind `ChooseHasher` selects at
+quality 2..9, every thread count `t ≥ 1`, every job `j ≤ t` and every input of `n` bytes (`n` a
+`usize`), the index handed to job `j` is `some` table(s): every `Store` of the loop reads its
+look-ahead window inside `input[.. range.end)` and writes inside the tables `InitializeH2..H9`
+allocate (hash values stay below the bucket count; table lengths as allocated). -/
+theorem favor_branch_never_panics (input : List Nat) (t n j : Nat) (ht : 0 < t) (hj : j ≤ t)
+    (hn : n ≤ input.length) (hn64 : n ≤ 2 ^ 64) :
+    (∃ b, (prebuilt (basicModel H2 65545) input t n 7 j).1 = some b ∧ b.size = 65545) ∧
+    (∃ b, (prebuilt (basicModel H3 65546) input t n 7 j).1 = some b ∧ b.size = 65546) ∧
+    (∃ b, (prebuilt (basicModel H4 131080) input t n 7 j).1 = some b ∧ b.size = 131080) ∧
+    (∃ b, (prebuilt (basicModel H54 1048588) input t n 7 j).1 = some b ∧ b.size = 1048588) ∧
+    (∀ bucketBits blockBits, bucketBits + blockBits ≤ 32 →
+      ∃ st, (prebuilt (advModel (adv32P bucketBits blockBits)) input t n 3 j).1 = some st) ∧
+    (∀ bucketBits blockBits hashLen, bucketBits + blockBits ≤ 32 →
+      ∃ st, (prebuilt (advModel (adv64P bucketBits blockBits hashLen)) input t n 7 j).1 = some st) ∧
+    (∃ st, (prebuilt (h9Model H9std) input t n 3 j).1 = some st) := by
+  have hb : ∀ (hl bb sweep len : Nat), bb ≤ 64 → 2 ^ bb + sweep ≤ len →
+      ∀ w, (basicP bb sweep hl).hash w % U32 + (basicP bb sweep hl).sweep ≤ len := by
+    intro hl bb sweep len h1 h2 w
+    have := basicHash_lt hl bb h1 w
+    have hm : basicHash hl bb w % U32 ≤ basicHash hl bb w := Nat.mod_le _ _
+    simp only [basicP]
+    omega
+  refine ⟨?_, ?_, ?_, ?_, ?_, ?_, ?_⟩
+  · exact shared_no_panic_basic H2_ok (by decide) 65545 (hb 5 16 1 65545 (by decide) (by decide)) input t n j ht hj hn
+  · exact shared_no_panic_basic H3_ok (by decide) 65546 (hb 5 16 2 65546 (by decide) (by decide)) input t n j ht hj hn
+  · exact shared_no_panic_basic H4_ok (by decide) 131080 (hb 5 17 4 131080 (by decide) (by decide)) input t n j ht hj hn
+  · exact shared_no_panic_basic H54_ok (by decide) 1048588 (hb 7 20 4 1048588 (by decide) (by decide)) input t n j ht hj hn
+  · intro bb kb h
+    exact shared_no_panic_adv (adv32P_ok bb kb h) (adv32_key_lt bb kb (by omega)) (mask_lt kb) (by show 1 ≤ 4; decide)
+      input t n j ht hj hn hn64
+  · intro bb kb hlen h
+    exact shared_no_panic_adv (adv64P_ok bb kb hlen h) (adv64_key_lt bb kb hlen (by omega)) (mask_lt kb)
+      (by show 1 ≤ 8; decide) input t n j ht hj hn hn64
+  · exact shared_no_panic_h9 h9std_key_lt input t n j ht hj hn
+
+/-- the bound on the input is needed: with fewer bytes than `get_range` was told the look-ahead
+window of the last stored position leaves the slice and `BulkStoreRange` panics (toy kind; the real
+code passes `input.len()` itself, so `n = input.length`) -/
+example : (prebuilt (basicModel toyP 16) ((List.range 36).map (· * 37 % 251)) 3 60 7 2).1 = none := by
+  decide +kernel
 
 end BV.Props.C06Hasher
